@@ -66,8 +66,10 @@ def run(ctx, chk, tier):
     chk.floor("R03", 72, "6 metrics x 4 configurations x 3 methods")
     sentinel_dtype(ctx, chk)
     float_extremes(ctx, chk, tier)
-    from . import c10
+    from . import c10, c01
     c10.purity(ctx, chk, only=("Scores.threshold_at_",), strict=False)
+    # the achieved rate is read from cm(): its cells are the decision-rule counts (a threshold cast to the scores' dtype loses the one-ulp sentinel)
+    c01.cm_cells_rule(ctx, chk)
 
 
 def feval(v, env):
